@@ -140,6 +140,7 @@ def _static(rng, nan_after=None):
     return S
 
 
+SAYS_SO = re.compile(r"converge|failed|fails|returning|truncat|cannot treat|ignored|not supported|stopp", re.I)
 _FLOAT = re.compile(r"[-+]?(?:\d+\.\d*|\.\d+|\d+)(?:[eE][-+]?\d+)?")
 
 
@@ -192,7 +193,11 @@ def _run(ctx, make_solver, det, t_first_bad, step, cont, nrows_full, injected_si
             err = e
     det = {**det, "fsolve_calls": len(tr.flags), "failure_observed": not all(tr.flags)}
     ctx.count("fsolve_calls_traced", len(tr.flags))
-    msgs = [str(w.message) for w in wlist if "constant_mass_matrix" not in str(w.message)]
+    all_msgs = [str(w.message) for w in wlist if "constant_mass_matrix" not in str(w.message)]
+    # only a message that speaks about the failure counts as 'not silent': incidental numpy / scipy warnings (invalid value
+    # encountered, overflow, matrix is exactly singular) do not tell the user that a solve failed or where the run stopped
+    msgs = [m for m in all_msgs if SAYS_SO.search(m)]
+    det = {**det, "other_warnings": [m for m in all_msgs if m not in msgs][:3]}
     consumed = list(vh.log)
     if injected_site is not None and not any(s == injected_site for s, _ in consumed):
         ctx.count(f"not_consumed:{injected_site}")
